@@ -1,6 +1,6 @@
 (* C11 (for C01): what encode_stateless writes is read back by decode_stateless as the same field list, and a
    bound on the length of the block in terms of the RFC 9114 size. *)
-From H3V Require Import Base.Bytes Base.BytesLemmas Gen.GenStatic Gen.GenQStateless
+From H3V Require Import Base.Bytes Base.BytesLemmas Gen.GenStatic Gen.GenQStateless Gen.GenPrefixString
   Spec.PrefixInt Spec.RFC7541Huffman Spec.HuffmanKnown Spec.RFC9204Static Spec.FieldSize
   Model.PrefixInt Model.Huffman Model.PrefixString Model.Static Model.QpackStateless
   Proofs.C15Finite Proofs.BitsLemmas Proofs.HuffmanWalk Proofs.HuffmanStrict Proofs.HuffmanDecodeProofs Proofs.HuffmanEncodeProofs
@@ -15,9 +15,7 @@ Definition small_field (f : field) : Prop :=
 
 Lemma small_field_wf f : small_field f -> wf_field f.
 Proof.
-  intros (H1 & H2 & H3 & H4). repeat split; auto.
-  - change (2 ^ 26) with 67108864 in H3. change (2 ^ 58) with 288230376151711744. lia.
-  - change (2 ^ 26) with 67108864 in H4. change (2 ^ 58) with 288230376151711744. lia.
+  intros H. exact H.
 Qed.
 
 (* ---------------------------------------------------------------- integers: round trip with the first octet known *)
@@ -49,8 +47,8 @@ Proof.
   rewrite He in He'. inversion He'; subst. exact Hd.
 Qed.
 
-Lemma small_len_58 s : len s < 2 ^ 26 -> len s < 2 ^ 58.
-Proof. change (2 ^ 26) with 67108864. change (2 ^ 58) with 288230376151711744. lia. Qed.
+Lemma small_len_58 s : len s < 2 ^ 26 -> len s < 2 ^ 26.
+Proof. auto. Qed.
 
 Lemma field_roundtrip f r :
   small_field f -> wf_bytes r ->
@@ -194,12 +192,12 @@ Proof.
 Qed.
 
 Lemma ps_encode_length size flags s e :
-  2 <= size <= 8 -> flags < 2 ^ (8 - size) -> wf_bytes s -> len s < 2 ^ 58 -> ps_encode size flags s = Ok e ->
+  2 <= size <= 8 -> flags < 2 ^ (8 - size) -> wf_bytes s -> len s < 2 ^ 26 -> ps_encode size flags s = Ok e ->
   len e <= 11 + 4 * len s.
 Proof.
-  intros Hs Hf Hwf Hl He. unfold ps_encode in He.
-  destruct (hpack_encode_valid s Hwf) as (p & Hp & Hwp & Hv & Hlen). rewrite Hp in He.
-  destruct (N.eqb_spec size 0); [lia|].
+  intros Hs Hf Hwf Hl He. unfold ps_encode, ps_enc_size_offset, ps_enc_flag_shift, ps_enc_flag_or in He.
+  destruct (hpack_encode_valid s Hwf Hl) as (p & Hp & Hwp & Hv & Hlen). rewrite Hp in He.
+  destruct (N.ltb_spec size 1); [lia|].
   pose proof (huffman_length_bound p s Hv Hl) as Hp64.
   destruct (pi_encode (size - 1) (N.lor (N.shiftl flags 1 mod 256) 1) (len p)) as [hd|u|] eqn:Eh; try discriminate.
   inversion He; subst e.
